@@ -323,9 +323,9 @@ func c13Run(b *core.B) {
 
 func init() {
 	core.Register(&core.Prop{
-		ID:    "C13",
-		Level: "exploration",
-		Rule: "programs from the shared generator biased towards hash literals with 1-5 entries, duplicate keys and values wrapped in a recording helper; per case a history over 1-4 templates: 3-8 interleaved executions chosen from {Exec, Clone().Exec, Render, Parse+Exec} with the cache off, then with the cache on a cold render of a never-seen text (nonce comment tag) and two warm Parse+Exec, then 30 (quick) / 300 (thorough) repeats of Render with a fresh parse (Go map order is probabilistic). Every execution gets a freshly built, equal context. Oracle: all outputs, error texts (0x addresses normalised) and recorded side-effect traces of one text are identical; a pointer-identity-aware deep structural hash of the parsed program (hook H2) is equal before and after every Exec, also for cached templates. Non-trivial = every generated template (distinct by hash).",
+		ID:      "C13",
+		Level:   "exploration",
+		Rule:    "programs from the shared generator biased towards hash literals with 1-5 entries, duplicate keys and values wrapped in a recording helper; per case a history over 1-4 templates: 3-8 interleaved executions chosen from {Exec, Clone().Exec, Render, Parse+Exec} with the cache off, then with the cache on a cold render of a never-seen text (nonce comment tag) and two warm Parse+Exec, then 30 (quick) / 300 (thorough) repeats of Render with a fresh parse (Go map order is probabilistic). Every execution gets a freshly built, equal context. Oracle: all outputs, error texts (0x addresses normalised) and recorded side-effect traces of one text are identical; a pointer-identity-aware deep structural hash of the parsed program (hook H2) is equal before and after every Exec, also for cached templates. Non-trivial = every generated template (distinct by hash).",
 		Assume:  []string{"for loops over Go maps have order-insensitive bodies (the licensed variation)", "plush.CacheEnabled is toggled by the single-threaded worker only"},
 		Batches: batchesQT(16, 64),
 		Run:     c13Run,
